@@ -53,6 +53,10 @@ func c14Receivers() []c14Recv {
 		{"Object", "Array", list(obj()), tvSlice(1), false},
 		{"Any", "Single", &CTy{T: "top"}, tvStr("abc"), false},
 		{"Any", "Array", list(&CTy{T: "top"}), tvSlice(1, tvStr("a"), tvF64(1), tvBool(true)), false},
+		// lists of lists declared in the schema: the element of the outer list is a list, whose kind has no type of its own (Any)
+		{"Any", "Array", list(list(&CTy{T: "number"})), tvSlice(1, tvSlice(1, tvF64(1), tvF64(2)), tvSlice(1, tvF64(3))), false},
+		{"Any", "Array", list(list(&CTy{T: "string"})), tvSlice(1, tvSlice(1, tvStr("ab"), tvStr("cd")), tvSlice(1, tvStr("e"))), false},
+		{"Any", "Array", &CTy{T: "list", Open: 0, E: &CTy{T: "list", Open: 0, E: &CTy{T: "string"}}}, tvSlice(1, tvSlice(1, tvStr("p"))), false},
 	}
 }
 
